@@ -14,7 +14,7 @@ CLAIM = {
     "technique": "runtime monitoring: metamorphic relations (affine equivariance, lane consistency) between executions of the real estimators",
 }
 ASSUMPTIONS = ["1e-2 <= |a| <= 1e2", ">= 8 elements per lane"]
-RULE = ("random (scale method, loc method, shape class, axis, data class in {uniform ints, normal-rounded, >50% ties, constant, heavy outliers}, a, b); "
+RULE = ("random (scale method, loc method, shape class, axis, data class in {uniform ints, normal-rounded, >50% ties, constant, all-zero, mixed constant/ordinary lanes, heavy outliers}, a, b); "
         "non-trivial = non-constant data; distinct = distinct case record")
 SCALES = ("std", "iqr", "mad", "doublemad", "diffcov", "biweight", "qn", "sn", "gapper")
 LOCS = ("median", "mean")
@@ -22,7 +22,7 @@ AS = (1 / 64, 0.25, 0.5, 2.0, 3.0, 10.0, 64.0, 100.0)
 
 
 def REQUIRED(tier):
-    return [f"scale:{m}" for m in SCALES] + ["axis:None", "axis:0", "axis:1", "shape:one_lane", "shape:2d", "shape:1d", "class:constant", "class:ties",
+    return [f"scale:{m}" for m in SCALES] + ["axis:None", "axis:0", "axis:1", "shape:one_lane", "shape:2d", "shape:1d", "class:constant", "class:zeros", "class:mixed_lanes", "class:ties",
                                              "class:outliers", "equivariance_checks", "zscore_checks", "lane_checks", "a<0", "via_block", "via_timeseries"]
 
 
@@ -44,6 +44,22 @@ def _data(rng, shape, cls):
         return x
     if cls == "constant":
         return np.full(shape, float(rng.integers(-100, 100)), dtype=np.float32)
+    if cls == "zeros":
+        return np.zeros(shape, dtype=np.float32)
+    if cls == "mixed_lanes":  # some lanes constant (incl. exactly zero, incl. the first lane), the others ordinary
+        x = rng.integers(-400, 400, size=shape).astype(np.float32)
+        if x.ndim == 2:
+            for ax_len, setter in ((x.shape[0], lambda i, v: x.__setitem__((i, slice(None)), v)), (x.shape[1], lambda j, v: x.__setitem__((slice(None), j), v))):
+                pass
+            lane_axis = 0 if x.shape[0] <= x.shape[1] else 1   # lanes run along the longer axis
+            nl = x.shape[lane_axis]
+            for i in {0, int(rng.integers(0, nl))} if rng.random() < 0.7 else {int(rng.integers(0, nl))}:
+                v = float(rng.choice([0.0, 5.0, -3.0]))
+                if lane_axis == 0:
+                    x[i, :] = v
+                else:
+                    x[:, i] = v
+        return x
     x = np.round(rng.normal(size=shape) * 20).astype(np.float32)
     m = rng.random(shape) < 0.08
     x[m] = rng.choice([-4000.0, 4000.0, 3500.0], size=int(m.sum()))
@@ -84,7 +100,7 @@ def _one(case, j, ctx):
     else:
         axis = int(rng.integers(0, 2))
         shape = (nlane, 1) if axis == 0 else (1, nlane)
-    cls = str(rng.choice(["uniform", "normal", "ties", "constant", "outliers"], p=[0.3, 0.25, 0.15, 0.1, 0.2]))
+    cls = str(rng.choice(["uniform", "normal", "ties", "constant", "outliers", "zeros", "mixed_lanes"], p=[0.25, 0.2, 0.12, 0.08, 0.15, 0.05, 0.15]))
     a = float(rng.choice(AS) * rng.choice([-1, 1]))
     b = float(rng.integers(-1000, 1000))
     x = _data(rng, shape, cls)
@@ -180,7 +196,7 @@ def _one(case, j, ctx):
                 i = int(np.argmax(np.where(nz, np.abs(zyd - np.sign(a) * zxd) - tolz, -1)))
                 ctx.violation(f"zscore-not-equivariant:{lab}:{loc}:{cls}", f"z(a*x+b) flat[{i}] = {zyd.ravel()[i]!r}, sign(a)*z(x) = {(np.sign(a) * zxd).ravel()[i]!r} (a={a}, b={b})", one)
                 return
-    if cls != "constant":
+    if cls not in ("constant", "zeros"):
         ctx.nontrivial_case(one)
     # ---- through the containers
     if x.ndim == 2 and method in ("std", "iqr", "mad") and loc != "norm" and axis is not None:
